@@ -77,9 +77,17 @@ static void do_poly(int w, int lsb, uint64_t poly, int table_stride, int nmsg)
     static unsigned char const alpha[] = {0x00, 0x01, 0x31, 0x80, 0xA5, 0xFF};
     for (int m = 0; m < nmsg; ++m)
     {
-        unsigned char msg[8];
+        unsigned char msg[96];
         int len;
-        if (m < 1 + 6 + 36)
+        static int const longlen[] = {5, 7, 8, 9, 15, 16, 17, 31, 32, 33, 63, 64, 65, 80};
+        if (m >= nmsg - 3)
+        {
+            /* long messages: lengths around the powers of two (unrolled or word-wise loops), random content */
+            len = longlen[rnd() % (sizeof(longlen) / sizeof(longlen[0]))];
+            for (int i = 0; i < len; ++i) { msg[i] = (unsigned char)rnd(); }
+            if (rnd() % 3 == 0) { msg[0] = 0; }
+        }
+        else if (m < 1 + 6 + 36)
         {
             /* all messages of length <= 2 over a 6-byte alphabet */
             len = m == 0 ? 0 : m <= 6 ? 1 : 2;
@@ -118,7 +126,7 @@ static void do_poly(int w, int lsb, uint64_t poly, int table_stride, int nmsg)
 
 static void do_hash(int sdbm, unsigned char const *msg, int len, uint32_t init)
 {
-    char z[16];
+    char z[128];
     memcpy(z, msg, (size_t)len);
     z[len] = 0;
     uint32_t s = sdbm ? a_hash_sdbm(z, init) : a_hash_bkdr(z, init);
@@ -136,7 +144,7 @@ static void do_hash(int sdbm, unsigned char const *msg, int len, uint32_t init)
     for (int k = 0; k <= len; ++k)
     {
         /* first piece length-delimited, second as a string, and the other way round */
-        char a[16];
+        char a[128];
         memcpy(a, msg, (size_t)k);
         a[k] = 0;
         uint32_t v1 = sdbm ? a_hash_sdbm_(msg, (a_size)k, init) : a_hash_bkdr_(msg, (a_size)k, init);
@@ -186,7 +194,7 @@ int main(int argc, char **argv)
     }
     /* hashes: NUL-free messages including bytes >= 0x80 */
     static unsigned char const ha[] = {0x01, 0x41, 0x7F, 0x80, 0xFF};
-    unsigned char msg[8];
+    unsigned char msg[96];
     for (int sd = 0; sd < 2; ++sd)
     {
         uint32_t inits[3] = {0, 0xFFFFFFFFu, (uint32_t)rnd()};
@@ -208,7 +216,7 @@ int main(int argc, char **argv)
         }
         for (int i = 0; i < (thorough ? 3000 : 200); ++i)
         {
-            int len = 1 + (int)(rnd() % 7);
+            int len = i % 10 == 0 ? 8 + (int)(rnd() % 72) : 1 + (int)(rnd() % 7); /* every tenth one long */
             for (int k = 0; k < len; ++k) { msg[k] = (unsigned char)(1 + rnd() % 255); }
             do_hash(sd, msg, len, (uint32_t)rnd());
         }
